@@ -1483,6 +1483,10 @@ private:
 			  << "++ Skipped analysis of recursive callee \""
 			  << cs.get_func_name() << "\"\n";);
 	  assert(!callee_analysis);	  
+	} else if (m_ctx.get_is_checking_phase() &&
+		   CRAB_VERIF_UNUSUAL("td_check_delayed_now")) {
+	  // Verification hook (off by default): see below.
+	  callee_exit.set_to_top();
 	} else {
 	  // ### Non-recursive call ###
 	  
@@ -1599,6 +1603,18 @@ private:
 		 << "=== Preconditions  ===\n" << callee_entry << "\n"
 		 << "=== Postconditions ===\n" << callee_exit << "\n"
 		 << "=====================\n";);
+      }
+
+      if (callee_analysis && CRAB_VERIF_UNUSUAL("td_check_delayed_now") &&
+	  !m_ctx.get_is_checking_phase() &&
+	  m_ctx.nested_wto_head_in_call_stack(callee_cg_node) &&
+	  !m_ctx.find_call_stack(callee_cg_node)) {
+	// Verification hook (off by default): run the checker on a
+	// callee whose check is delayed right now, with the invariants
+	// of this calling context, instead of only once at the end
+	// with the invariants of the last calling context. Callsites
+	// that are not cached yet are replaced by top.
+	check_function(callee_cg_node, *callee_analysis, m_ctx);
       }
 
       if (callee_analysis && !m_ctx.nested_wto_head_in_call_stack(callee_cg_node)) {
